@@ -14,7 +14,7 @@ Oracle (gpmc/refs/variational.py, plain float64 torch): K and m come from ONE ea
 per-strategy conventions:
   * Variational / BatchDecoupled / CIQ / (bases of OrthogonallyDecoupled, LMC, IndependentMultitask): + jitter on the diagonal of Kxx;
     p(e) = N(0, I); CIQ whitens with the symmetric square root;
-  * Unwhitened: p(u) = N(mz, Kzz + 1e-3 I) as its `prior_distribution` is coded; in training mode, after a call, N(mz, Kzz + jitter I);
+  * Unwhitened: p(u) = N(mz, Kzz + jitter I) in both modes;
   * BatchDecoupled: mean from inducing set 0, covariance from set 1, KL = -log p(m) + KL(N(0, S) || p);
   * OrthogonallyDecoupled: mean + Cov_q(x, Zb) a, KL_base + 1/2 a^T Cov_q(Zb, Zb) a (+ jitter in eval mode as `prior_distribution` is coded);
   * GridInterpolation: f = W u with Keys' cubic convolution weights W (interior points), p(u) = N(mz, Kzz + 1e-3 I);
@@ -53,7 +53,7 @@ ASSUMPTIONS = [
 ]
 
 JIT_DEFAULT = 1e-6  # documented default of settings.variational_cholesky_jitter for float64
-JIT_PRIOR = 1e-3  # `add_jitter()` default used by Unwhitened.prior_distribution; literal in GridInterpolation.prior_distribution
+JIT_PRIOR = 1e-3  # literal in GridInterpolation.prior_distribution
 STRATS = ["Variational", "Unwhitened", "BatchDecoupled", "BatchDecoupledMV", "OrthDecoupled", "CIQ", "Grid", "LMC", "IndepMT"]
 DISTS = ["Cholesky", "MeanField", "Delta", "Natural", "TrilNatural"]
 SHAPES = [(1, 1, 1), (3, 4, 1), (4, 3, 2)]
@@ -367,10 +367,12 @@ class Case:
         m, Sq = self.q_moments()
         if self.s == "Unwhitened":
             m_u, S_u = m, Sq
-            jp = JIT_PRIOR if mode == "eval" else self.jit
-            kl = RV.kl_q_p(m, Sq, mz, RV.add_jitter(Kzz, jp))
+            # p(u) = N(mz, Kzz + jitter I) with the SAME jitter in both modes and whether or not a forward call came first (a first version of
+            # this reference mirrored the 1e-3 default of `add_jitter()` that `prior_distribution` used in evaluation mode; that was the library's
+            # defect, found by a bug-hunting sub-agent and repaired, not a convention of the property)
+            kl = RV.kl_q_p(m, Sq, mz, RV.add_jitter(Kzz, self.jit))
             mean, cov = RV.predictive(Kxx, Kxz, Ktz, mx, mz, m_u, S_u)
-            return dict(mean=mean, cov=cov, kl=kl, prior_mean=mx, prior_cov=Kxx, kl_zero=(mode == "train"))
+            return dict(mean=mean, cov=cov, kl=kl, prior_mean=mx, prior_cov=Kxx, kl_zero=True)
         R = RV.whitening_factor(Ktz, "sym" if self.s == "CIQ" else "chol")
         m_u, S_u = RV.unwhiten(mz, R, m, Sq)
         kl = RV.kl_q_p(m, Sq, torch.zeros(M, dtype=F64), eye(M))
